@@ -54,6 +54,19 @@ CHECKS = {
         note=NOTE_COMMON + "Reply bytes -> reply text relies on C01 (the driver runs the control-connection model). Known findings: quoted values are unquoted, data line OK dropped, data line repeating the requested key, literal DEFAULT.",
         technique="Lean 4: loop-invariant induction over parse_keywords + inverse-of-encoder theorems; negation witnesses by decide; differential correspondence",
         ref='§4 C13'),
+    'C04': dict(
+        text=("For every HMAC function, every environment (any list of advertised methods in any order, any cookie condition, any password provider, "
+              "any nonce) and every server script: C04_order (commands written are PROTOCOLINFO, at most one AUTHCHALLENGE, at most one AUTHENTICATE, "
+              "then — only after a 250 to it — a prefix of the four bootstrap queries; ready fires at most once and succeeds only after all four), "
+              "C04_preference (decision table: SAFECOOKIE before COOKIE before password before NULL, only a 32-byte cookie, password reached only when "
+              "no cookie method is usable) + C04_order_insensitive (depends on the set of methods only) + C04_password_consulted, C04_safecookie "
+              "(the proof is written only after the server hash over cookie and both nonces was verified, and it is the controller-to-server HMAC — "
+              "never the cookie) + C04_safecookie_exact. Correspondence: real protocol with real cookie files, real HMAC-SHA256 and pinned nonce "
+              "against a scripted server over 65+ method lists x cookie conditions x providers x per-step behaviours."),
+        note=NOTE_COMMON + "HMAC is uninterpreted (collision-freedom appears as an explicit hypothesis in C04_safecookie_exact). The regex extraction of COOKIEFILE and "
+             "unescape_quoted_string are exercised through real paths (space, quote, backslash) but not modelled; malformed GETINFO replies during bootstrap are not in the script alphabet.",
+        technique="Lean 4: exhaustive case analysis of the authentication step machine for all scripts + decision-table theorems; differential correspondence",
+        ref='§4 C04'),
     'C05': dict(
         text=("For every machine state and every chunk: C05_settled (after any dataReceived the machine is never left holding bytes it could have "
               "processed: <2 bytes in sent_version, an incomplete reply in sent_request, an empty buffer in relaying), C05_relay_step (once relaying each "
